@@ -210,8 +210,8 @@ PROPS = {
     "C08": {
         "level": "exploration",
         "variants": {
-            "quick": [("rel", {})],
-            "thorough": [("rel", {"timeout": 4 * 3600})],
+            "quick": [("rel", {}), ("tsan", {}), ("miri", {"timeout": 1500})],
+            "thorough": [("rel", {"timeout": 4 * 3600}), ("tsan", {"timeout": 4 * 3600}), ("miri", {"timeout": 5 * 3600})],
         },
         "floors": ["out_of_order_runs", "reorder_buffer_runs"],
         "rule": "scenario = (MT type x stream maker {own MT writer, ST writer chunked / unchunked (dependent chunks), preset "
@@ -235,8 +235,8 @@ PROPS = {
     "C09": {
         "level": "fault_enumeration",
         "variants": {
-            "quick": [("rel", {})],
-            "thorough": [("rel", {"timeout": 4 * 3600})],
+            "quick": [("rel", {}), ("tsan", {}), ("miri", {"timeout": 1500})],
+            "thorough": [("rel", {"timeout": 4 * 3600}), ("tsan", {"timeout": 4 * 3600}), ("miri", {"timeout": 5 * 3600})],
         },
         "floors": ["fault_corrupt-unit", "fault_truncated", "fault_zero-bytes", "fault_source-error@call",
                    "fault_sink-error", "fault_worker-failure"],
@@ -263,8 +263,8 @@ PROPS = {
     "C10": {
         "level": "exploration",
         "variants": {
-            "quick": [("rel", {})],
-            "thorough": [("rel", {"timeout": 4 * 3600})],
+            "quick": [("rel", {}), ("tsan", {}), ("miri", {"timeout": 1500})],
+            "thorough": [("rel", {"timeout": 4 * 3600}), ("tsan", {"timeout": 4 * 3600}), ("miri", {"timeout": 5 * 3600})],
         },
         "floors": ["runs_with_delay_in_steal_window", "workers_started"],
         "rule": "history = construct(requested workers in {0,1,2,3,16,256,257,1000,u32::MAX}) -> {nothing, partial I/O, "
@@ -330,8 +330,9 @@ PROPS = {
     "C13": {
         "level": "exploration",
         "variants": {
-            "quick": [("rel", {})],
-            "thorough": [("rel", {"timeout": 4 * 3600})],
+            "quick": [("rel", {}), ("tsan", {}), ("miri", {"timeout": 1500}), ("vg", {"timeout": 1500})],
+            "thorough": [("rel", {"timeout": 4 * 3600}), ("tsan", {"timeout": 4 * 3600}), ("miri", {"timeout": 5 * 3600}),
+                         ("vg", {"timeout": 5 * 3600})],
         },
         "floors": ["repetitions", "partitions", "mt_runs"],
         "rule": "case = (writer in {LZMA x4 framings, LZMA2 plain / chunked, XZ with and without block size and pre-filters, "
